@@ -26,6 +26,7 @@ Proof.
   - cbn in *. injection H as <- <- _. reflexivity.
   - cbn [group_loop] in *. inv_bind H as [c1 s1] eq H1. rewrite (tx_val_nov _ _ _ _ _ _ _ _ H1). cbn [bind].
     destruct (e_validate (Ev P r) && _); [discriminate|].
+    destruct (negb (t_gidok (fst s))); [discriminate|].
     inv_bind H as [[c2 ss2] gb2] eq H2. injection H as <- <- _.
     cbn [En e_validate andb]. rewrite (IH _ _ gb0 _ _ _ H2). reflexivity.
 Qed.
